@@ -31,14 +31,14 @@ PROPS["C09"] = {
         {
             "pkg": "primitives/ed25519", "configs": ALL4,
             "tests": {
-                "TestC09Batch": T(1600, 80000, shards={"quick": 8, "thorough": 16}),
-                "TestC09Expanded": T(1200, 60000, shards={"quick": 4, "thorough": 16}),
+                "TestC09Batch": T(1600, 60000, shards={"quick": 8, "thorough": 16}),
+                "TestC09Expanded": T(1200, 30000, shards={"quick": 4, "thorough": 16}),
             },
         },
         {
             "pkg": "primitives/ed25519/extra/cache", "configs": ALL4,
             "tests": {
-                "TestC09Cache": T(1600, 80000, shards={"quick": 4, "thorough": 16}),
+                "TestC09Cache": T(1600, 60000, shards={"quick": 4, "thorough": 16}),
             },
         },
     ],
